@@ -15,20 +15,22 @@ REG = {
         "relevant": ["contains", "detect"],
     },
     "C02": {
-        "modules": ["VProofs.Props.C02"],
+        "modules": ["VProofs.Props.C02", "VProofs.Props.Pandas"],
         "theorems": thms("C02", ["C02_order_indep", "C02_mutex_generic_pandas", "dtype_partition", "contains_dtypePred",
-                                 "C02_mutex_object_pandas", "C02_mutex_string_pandas", "C02_witness_F10"]),
+                                 "C02_mutex_object_pandas", "C02_mutex_string_pandas", "C02_witness_F10"])
+                    + ["V.Pd.pandas_WF", "V.PandasProps.C02_pandas"],
         "runners": ["pandas"],
         "relevant": ["contains", "guard", "infer-path", "infer-outcome", "detect-path", "relation-missing"],
     },
     "C03": {
-        "modules": ["VProofs.Props.C03"],
-        "theorems": thms("C03", ["C03_infer_sound", "C03_lands_step", "C03_lands_pandas"]),
+        "modules": ["VProofs.Props.C03", "VProofs.Props.Pandas"],
+        "theorems": thms("C03", ["C03_infer_sound", "C03_lands_step", "C03_lands_pandas"])
+                    + ["V.Pd.pandas_WF", "V.Pd.built_typeset", "V.PandasProps.C03_pandas", "V.PandasProps.C03_pandas_model"],
         "runners": ["pandas", "numpy", "list"],
     },
     "C04": {
-        "modules": ["VProofs.Props.C04"],
-        "theorems": thms("C04", ["C04_fixpoint"]),
+        "modules": ["VProofs.Props.C04", "VProofs.Props.Pandas"],
+        "theorems": thms("C04", ["C04_fixpoint"]) + ["V.Pd.pandas_WF", "V.PandasProps.C04_pandas"],
         "runners": ["pandas", "numpy", "list"],
     },
     "C15": {
@@ -38,8 +40,9 @@ REG = {
         "relevant": ["contains", "guard", "infer-path", "infer-outcome", "detect-path", "relation-missing"],
     },
     "C16": {
-        "modules": ["VProofs.Props.C16"],
-        "theorems": thms("C16", ["C16_chain", "C16_nested_pandas", "C16_witness_F26", "C16_witness_F27", "on_path_of_contains"]),
+        "modules": ["VProofs.Props.C16", "VProofs.Props.Pandas"],
+        "theorems": thms("C16", ["C16_chain", "C16_nested_pandas", "C16_witness_F26", "C16_witness_F27", "on_path_of_contains"])
+                    + ["V.Pd.pandas_WF", "V.PandasProps.C16_pandas"],
         "runners": ["pandas"],
         "relevant": ["contains", "detect-path"],
     },
